@@ -9,7 +9,9 @@ TLC : exhaustive; invariants TypeOK, SimpleCount, NTSCountPerDc, NTSRackDiversit
       LookupOK on the reference definition itself.
 Bind: every "done" state is rebuilt with real Host / Metadata.rebuild_token_map / KeyspaceMetadata objects
       and Metadata.get_replicas(keyspace, key) is compared, as a set and for repetition, for a key at, just
-      before and just after every ring token (harness/replay/placement.py).
+      before and just after every ring token (harness/replay/placement.py).  AlterReplication histories
+      (settings installed, every key looked up, new settings installed through Metadata._update_keyspace /
+      _rebuild_all as a schema refresh does, ...) must answer with the replicas of the CURRENT settings.
 """
 import os
 
@@ -36,24 +38,32 @@ META = {
     "design_ref": "5.5 C26",
 }
 
-INVARIANTS = ["TypeOK", "SimpleCount", "NTSCountPerDc", "NTSRackDiversity", "ClassicEqualsModern", "LookupOK"]
+INVARIANTS = ["TypeOK", "SimpleCount", "NTSCountPerDc", "NTSRackDiversity", "ClassicEqualsModern", "LookupOK",
+              "CurrentSettingsOnly"]
 ACTIONS = ["OldToken", "NewToken", "Finish"]
-WITNESSES = ["Witness_RackRepeatConsecutive", "Witness_SimpleWraps", "Witness_DcWithoutRf"]
+WITNESSES = ["Witness_RackRepeatConsecutive", "Witness_SimpleWraps", "Witness_DcWithoutRf",
+             "Witness_AlterChangesReplicas"]
 MAX_REPORTED_PER_SIGNATURE = 2
 
 
 def consts_for(ctx, which):
     if which == "exhaustive":
         if ctx.quick:
-            return {"MaxHosts": 4, "MaxDCs": 2, "MaxRacks": 2, "MaxRing": 5, "MaxRF": 4, "Lens": set(range(1, 6))}
-        return {"MaxHosts": 4, "MaxDCs": 2, "MaxRacks": 3, "MaxRing": 6, "MaxRF": 4, "Lens": set(range(1, 7))}
+            return {"MaxHosts": 4, "MaxDCs": 2, "MaxRacks": 2, "MaxRing": 5, "MaxRF": 4, "Lens": set(range(1, 6)), "MaxAlters": 0}
+        return {"MaxHosts": 4, "MaxDCs": 2, "MaxRacks": 3, "MaxRing": 6, "MaxRF": 4, "Lens": set(range(1, 7)), "MaxAlters": 0}
+    if which == "alter":        # histories: settings installed, replicas looked up, settings altered (MaxAlters times)
+        if ctx.quick:
+            return {"MaxHosts": 3, "MaxDCs": 2, "MaxRacks": 2, "MaxRing": 3, "MaxRF": 2, "Lens": {2, 3}, "MaxAlters": 1}
+        return {"MaxHosts": 3, "MaxDCs": 2, "MaxRacks": 2, "MaxRing": 4, "MaxRF": 2, "Lens": {2, 3, 4}, "MaxAlters": 2}
     if which == "witness":
-        return {"MaxHosts": 3, "MaxDCs": 2, "MaxRacks": 2, "MaxRing": 4, "MaxRF": 3, "Lens": {4}}
-    return {"MaxHosts": 6, "MaxDCs": 2, "MaxRacks": 3, "MaxRing": 8, "MaxRF": 4, "Lens": {5, 6, 7, 8}}
+        return {"MaxHosts": 3, "MaxDCs": 2, "MaxRacks": 2, "MaxRing": 4, "MaxRF": 3, "Lens": {4}, "MaxAlters": 1}
+    return {"MaxHosts": 6, "MaxDCs": 2, "MaxRacks": 3, "MaxRing": 8, "MaxRF": 4, "Lens": {5, 6, 7, 8}, "MaxAlters": 0}
 
 
 def signature_of(inst, bad):
     kind = inst["strat"]["kind"]
+    if inst.get("hist"):
+        kind = "alter->" + kind           # replication settings altered after replicas had been looked up
     whys = {b["why"] for b in bad}
     if "exception" in whys:
         return "%s:exception" % kind
@@ -65,7 +75,7 @@ def signature_of(inst, bad):
 def is_nontrivial(inst):
     """A host owning several tokens, or NTS asking for more replicas than a datacenter has racks."""
     ring = inst["ring"]
-    if len(set(ring)) < len(ring):
+    if len(set(ring)) < len(ring) or inst.get("hist"):
         return True
     if inst["strat"]["kind"] == "NTS":
         for d, rf in enumerate(inst["strat"]["rfs"], 1):
@@ -77,8 +87,9 @@ def is_nontrivial(inst):
 
 def describe(inst, bad):
     b = bad[0]
+    settings = " altered to ".join(str(h) for h in inst["hist"]) if inst.get("hist") else str(inst["strat"])
     return ("ring owners %s, dc %s, rack %s, %s: key position %s (token of position i is 2i): Cassandra's placement "
-            "gives %s, get_replicas returns %s (%s)" % (inst["ring"], inst["dc"], inst["rack"], inst["strat"],
+            "gives %s, get_replicas returns %s (%s)" % (inst["ring"], inst["dc"], inst["rack"], settings,
                                                          b["key"], b["spec"], b["code"], b["why"]))
 
 
@@ -92,12 +103,12 @@ class Tally:
         ctx.evaluations += 1
         if bad:
             sig = signature_of(inst, bad)
-            self.bad.setdefault(sig, []).append(((len(inst["ring"]), len(inst["dc"]), repr(inst["strat"])), inst, bad))
+            self.bad.setdefault(sig, []).append(((len(inst["ring"]), len(inst["dc"]), repr(inst.get("hist") or inst["strat"])), inst, bad))
             return False
         self.ok += 1
         ctx.traces_validated += 1
         if is_nontrivial(inst):
-            ctx.nontrivial((tuple(inst["ring"]), tuple(inst["dc"]), tuple(inst["rack"]), repr(inst["strat"])))
+            ctx.nontrivial((tuple(inst["ring"]), tuple(inst["dc"]), tuple(inst["rack"]), repr(inst.get("hist") or inst["strat"])))
         return True
 
     def report(self, ctx):
@@ -152,6 +163,39 @@ def run(ctx):
         ok = tally.add(ctx, inst)
         if ok and is_nontrivial(inst) and n % 1500 == 7:
             ctx.sample({k: inst[k] for k in ("ring", "dc", "rack", "strat", "byKey")})
+
+    # ---------------------------------------------------------------- altered replication settings
+    aconsts = consts_for(ctx, "alter")
+    acfg = tlc.write_cfg(os.path.join(ctx.scratch, "PlacementAlter.cfg"), constants=aconsts, invariants=INVARIANTS, deadlock=False)
+    ares, astates = tlc.enumerate_states("Placement", acfg, ctx.scratch, coverage=True, timeout=300 if ctx.quick else 1500)
+    ctx.add_tlc(ares, "exhaustive:alter")
+    if ares.violation:
+        ctx.violation("TLC: invariant %s violated in Placement.tla (AlterReplication)" % ares.invariant,
+                      replay={"trace": [s for _, s in ares.trace()]}, signature="spec:" + str(ares.invariant))
+        return
+    if ares.coverage().get("AlterReplication", (0, 0))[1] == 0:
+        raise tlc.MachineryError("action AlterReplication never taken")
+    histories = [P.instance_of(s) for s in done_states(astates) if len(s["hist"]) > 1]
+    del astates
+    ctx.note("constants_alter", {k: (sorted(v) if isinstance(v, set) else v) for k, v in aconsts.items()})
+    ctx.note("altered_histories", len(histories))
+    if not histories:
+        raise tlc.MachineryError("TLC produced no history with altered replication settings")
+    kinds = {(h["hist"][-2]["kind"], h["hist"][-1]["kind"]) for h in histories}
+    if kinds != {("Simple", "Simple"), ("Simple", "NTS"), ("NTS", "Simple"), ("NTS", "NTS")}:
+        raise tlc.MachineryError("alterations enumerated do not cover all strategy changes: %s" % sorted(kinds))
+    for n, inst in enumerate(histories):
+        ok = tally.add(ctx, inst)
+        if ok and n % 700 == 3:
+            ctx.sample({k: inst[k] for k in ("ring", "dc", "rack", "hist", "byKey")})
+    # self-test: the expectation of the settings BEFORE the last alteration must be rejected where it differs
+    stale = next((h for h in histories if len(h["hist"]) == 2 and h["hist"][0]["kind"] == "Simple" and h["hist"][1]["kind"] == "Simple"
+                  and h["hist"][0]["rf"] < h["hist"][1]["rf"] <= len(h["dc"])), None)
+    if stale is None:
+        raise tlc.MachineryError("no Simple->Simple history for the self-test")
+    swapped = dict(stale, hist=[stale["hist"][1], stale["hist"][0]], strat=stale["hist"][0])
+    if P.evaluate(swapped) == P.evaluate(stale):
+        raise tlc.MachineryError("binding self-test failed: order of replication settings does not influence the verdict")
 
     # ---------------------------------------------------------------- binding self-test
     selftest = {"corrupted_rejected": 0}
